@@ -172,7 +172,91 @@ def fam_floats(agg, h, method):
                     agg.outcomes["floats-agree"] += 1
 
 
-FAMILIES = {"grid": fam_grid, "floats": fam_floats}
+def fam_patterns(agg, h, method):
+    """every arrangement of two groups over 5..9 rows (all 2**n key sequences): unevenly spaced group rows, runs, single rows"""
+    import itertools as it
+    from serif import Table, Vector
+    for n in (5, 6, 7, 8, 9):
+        vals = [i * i + 1 for i in range(n)]
+        vals_n = [None if i % 4 == 1 else v for i, v in enumerate(vals)]
+        for bits in it.product("AB", repeat=n):
+            keys = [(b,) for b in bits]
+            agg.states += 1; agg.nontrivial += 1
+            for vv in (vals, vals_n):
+                menu = {"sum": ["v"], "min": ["v"], "max": ["v"], "count": ["v"]}
+                case = {"family": "every two-group arrangement", "keys": "".join(bits), "values": vv, "method": method}
+                agg.evals += 1; agg.transitions += 1; agg.compared += 1
+                try:
+                    t = Table([Vector([k[0] for k in keys], name="k0"), Vector(list(vv), name="v")])
+                    res = getattr(t, method)(over="k0", sum_over="v", min_over="v", max_over="v", count_over="v")
+                except Exception as e:
+                    agg.violation(V(f"{method}.patterns", "raises-" + type(e).__name__, case, None, repr(e)[:100]))
+                    continue
+                h.update(repr([list(map(repr, c._underlying)) for c in res._underlying]).encode())
+                if (judge_aggregate if method == "aggregate" else judge_window)(agg, f"{method}.patterns", case, res, keys, list(vv), menu, 1):
+                    agg.outcomes["patterns-agree"] += 1
+
+
+def fam_applies(agg, h, method):
+    """several custom functions on ONE column in one call: each receives its group's values (None included) in row order, in a
+    list of its own - also when an earlier function sorted, reversed or emptied the list it was given; key and value arguments
+    given as one-shot iterators (generator, map, iter) mean the same as a list"""
+    from serif import Table, Vector
+    keysets = [["a", "b", "a", "b", "a"], ["a", "a", "a"], ["b", "a", "b", "a"], ["a", "b", "c"]]
+    valsets = [[5, 3, None, 1, 4], [3, 1, 2], [2, None, 1, None], [1, 2, 3]]
+    mutators = {"sort": lambda xs: xs.sort(key=lambda x: (x is None, x if x is not None else 0)), "reverse": lambda xs: xs.reverse(), "clear": lambda xs: xs.clear(),
+                "append": lambda xs: xs.append(99), "none": lambda xs: None}
+    for ks, vs in zip(keysets, valsets):
+        keys = [(k,) for k in ks]
+        groups = gs.groups_of(keys)
+        want_groups = [[vs[i] for i in rows] for _, rows in groups]
+        for mname, mut in mutators.items():
+            seen = []
+
+            def first(xs, mut=mut):
+                mut(xs) if isinstance(xs, list) else None
+                return 0
+
+            def second(xs):
+                seen.append(list(xs))
+                return repr(list(xs))
+            agg.evals += 1; agg.transitions += 1; agg.states += 1; agg.nontrivial += 1; agg.compared += 1
+            case = {"family": "several custom functions on one column", "keys": ks, "values": vs, "first_function": mname, "method": method}
+            try:
+                t = Table([Vector(list(ks), name="k0"), Vector(list(vs), name="v")])
+                res = getattr(t, method)(over="k0", apply={"one": ("v", first), "two": ("v", second)})
+            except Exception as e:
+                agg.violation(V(f"{method}.applies", "raises-" + type(e).__name__, case, None, repr(e)[:100]))
+                continue
+            if sorted(map(repr, seen)) != sorted(map(repr, want_groups)):
+                agg.violation(V(f"{method}.applies", "later-function-does-not-get-the-groups-values-in-row-order", case, want_groups, seen))
+            else:
+                agg.outcomes["applies-agree"] += 1
+        # one-shot iterables as arguments
+        for form in ("generator", "map", "iter", "tuple"):
+            for what in ("over", "sum_over", "both"):
+                t = Table([Vector(list(ks), name="k0"), Vector([1] * len(ks), name="k1"), Vector(list(vs), name="v"), Vector([x if x is None else x * 2 for x in vs], name="w")])
+                mk = {"generator": lambda names: (n_ for n_ in names), "map": lambda names: map(str, names), "iter": lambda names: iter(list(names)), "tuple": lambda names: tuple(names)}[form]
+                over = mk(["k0", "k1"]) if what in ("over", "both") else ["k0", "k1"]
+                so = mk(["v", "w"]) if what in ("sum_over", "both") else ["v", "w"]
+                menu = {"sum": ["v", "wdouble"]}
+                agg.evals += 1; agg.transitions += 1; agg.states += 1; agg.nontrivial += 1; agg.compared += 1
+                case = {"family": "one-shot iterable arguments", "keys": ks, "values": vs, "argument_form": form, "which": what, "method": method}
+                try:
+                    res = getattr(t, method)(over=over, sum_over=so)
+                    ref = getattr(t, method)(over=["k0", "k1"], sum_over=["v", "w"])
+                except Exception as e:
+                    agg.violation(V(f"{method}.iterargs", "raises-" + type(e).__name__, case, None, repr(e)[:100]))
+                    continue
+                a = [(c._name, list(c._underlying)) for c in res._underlying]
+                b = [(c._name, list(c._underlying)) for c in ref._underlying]
+                if a != b:
+                    agg.violation(V(f"{method}.iterargs", "one-shot-iterable-argument-means-something-else-than-the-list", case, b, a))
+                else:
+                    agg.outcomes["iterargs-agree"] += 1
+
+
+FAMILIES = {"grid": fam_grid, "floats": fam_floats, "patterns": fam_patterns, "applies": fam_applies}
 
 
 def run_extra_unit(unit, method):
